@@ -84,6 +84,7 @@ class SourceAD(MVPN):
         return (
             isinstance(other, SourceAD)
             and self.CODE == other.CODE
+            and self.afi == other.afi
             and self.rd == other.rd
             and self.source == other.source
             and self.group == other.group
